@@ -1,15 +1,55 @@
 (* C14 -- The page allocator never double-allocates and never loses space.
    Property file: only `exact` of lemmas proved in Alloc/*P.v, plus non-vacuity Examples.
-   Model: Alloc/Bitmap.v (U64GroupedBitmap, BtreeBitmap), Alloc/Buddy.v (BuddyAllocator),
-   Alloc/Region.v (RegionTracker, Allocators, page_manager bookkeeping).
+
+   Model (definitions only): Alloc/Bitmap.v  U64GroupedBitmap, BtreeBitmap (64-ary summary tree)
+                             Alloc/Buddy.v   BuddyAllocator (new/alloc/alloc_lowest/free/record_alloc/resize/to_vec/from_bytes)
+                             Alloc/Region.v  RegionTracker, Allocators, allocate_helper_retry/free_helper/mark_page_allocated
    Vocabulary (Alloc/BuddyP.v):
-     fr a k i       block k/i (pages [i*2^k,(i+1)*2^k)) is marked free in the order-k bitmap
-     pfree a p      page p lies in a block marked free             (the free space)
-     blk_free a k i every page of block k/i is free    blk_used a k i: no page of it is free
-     BInv a         summary trees exact and padded, bitmap k has len/2^k entries, a page is free at one
-                    order only (no_nested), below max_order no two buddies are both free (merged). *)
-From RV Require Import Base.Bytes Alloc.Bitmap Alloc.Buddy Alloc.Region Alloc.BitmapP Alloc.TreeP Alloc.BuddyP.
+     fr a k i        block k/i (pages [i*2^k,(i+1)*2^k)) is marked free in the order-k bitmap
+     pfree a p       page p lies in a block marked free                        (the free space)
+     blk_free a k i  every page of block k/i is free;   blk_used a k i  no page of it is free
+     has_free a j    some block is marked free at order j
+     BInv a          every bitmap is a well-formed summary tree (a parent bit is set iff the child word is all
+                     ones, padding bits set, root <= 64 entries), bitmap k has len/2^k entries, no page is
+                     free at two orders (no_nested), below max_order no two buddies are both free (merged).
+   Not proved (validated on every run by the harness oracle instead, see design.d/C14.md):
+     alloc_lowest returns the LOWEST free index; Allocators::new / resize_to keep the tracker invariant. *)
+From Coq Require Import List NArith Bool Lia.
+From RV Require Import Base.Bytes Alloc.Bitmap Alloc.Buddy Alloc.Region Alloc.BitmapP Alloc.TreeP Alloc.BuddyP
+  Alloc.ResizeP Alloc.LowestP Alloc.SerialP Alloc.OpsP Alloc.RegionP.
+Import ListNotations.
 Open Scope N_scope.
+
+(* ---------------------------------------------------------------- the bitmap tree *)
+
+(* find_first_unset answers the least unset leaf bit, or None when every bit is set *)
+Theorem bitmap_find_first_unset : forall t,
+  bt_ok t ->
+  match bt_find_first_unset t with
+  | Some r => bt_get t r = false /\ (forall i, i < r -> bt_get t i = true)
+  | None => forall i, bt_get t i = true
+  end.
+Proof. exact bt_find_spec. Qed.
+
+Theorem bitmap_set : forall t i j, tree_ok t -> i < bt_len t -> bt_get (bt_set t i) j = (j =? i) || bt_get t j.
+Proof. intros. now apply bt_set_get. Qed.
+
+Theorem bitmap_clear : forall t i j, tree_ok t -> i < bt_len t -> bt_get (bt_clear t i) j = negb (j =? i) && bt_get t j.
+Proof. intros. now apply bt_clear_get. Qed.
+
+Theorem bitmap_set_inv : forall t i, bt_ok t -> i < bt_len t -> bt_ok (bt_set t i).
+Proof. exact bt_set_ok. Qed.
+
+Theorem bitmap_clear_inv : forall t i, bt_ok t -> i < bt_len t -> bt_ok (bt_clear t i).
+Proof. exact bt_clear_ok. Qed.
+
+(* ---------------------------------------------------------------- BInv is established and preserved *)
+
+(* new: invariant holds, everything is free, for every size and capacity *)
+Theorem new_inv : forall n cap,
+  let a := buddy_new n cap in
+  BInv a /\ blen a = n /\ bmax a = calculate_usable_order cap /\ (forall p, pfree a p <-> p < n).
+Proof. exact new_spec. Qed.
 
 (* alloc: the block handed out lies inside the region, was completely free, and exactly it leaves the
    free space; the invariant is kept.  A refusal changes nothing. *)
@@ -32,6 +72,17 @@ Theorem alloc_complete_above_max_order : forall a k,
   BInv a -> bmax a < k -> blen a < 2 ^ (bmax a + 1) -> ~ exists i, blk_free a k i.
 Proof. exact no_block_above. Qed.
 
+(* alloc_lowest: same guarantees as alloc (that the index is the lowest is validated, not proved) *)
+Theorem alloc_lowest_sound : forall a k,
+  BInv a ->
+  match buddy_alloc_lowest a k with
+  | (Some x, a') =>
+      BInv a' /\ bmax a' = bmax a /\ blen a' = blen a /\ k <= bmax a /\ (x + 1) * 2 ^ k <= blen a
+      /\ blk_free a k x /\ (forall p, pfree a' p <-> pfree a p /\ p / 2 ^ k <> x)
+  | (None, a') => a' = a /\ forall j, k <= j -> ~ has_free a j
+  end.
+Proof. exact alloc_lowest_spec. Qed.
+
 (* free: the space returns to the free space, merged into the block of order o that is now marked free,
    and o is the largest the neighbours allow: the buddy of that block is not completely free *)
 Theorem free_merges : forall a i k,
@@ -53,3 +104,81 @@ Theorem record_alloc_sound : forall a i k,
   | (false, a') => a' = a /\ (bmax a < k \/ blen a / 2 ^ k <= i \/ ~ blk_free a k i)
   end.
 Proof. exact record_alloc_spec. Qed.
+
+(* resize, growing or shrinking, at any sizes: under the code's own assertions (the bitmap trees have enough
+   levels; the dropped tail is free) every assert holds, the invariant is kept, old free space below the new
+   length is kept and the new pages are free *)
+Theorem resize_inv : forall a n,
+  BInv a -> bmax a <= 32 -> resize_trees_pre a n = true ->
+  (forall p, n <= p -> p < blen a -> pfree a p) ->
+  snd (buddy_resize_ok a n) = true /\ BInv (buddy_resize a n) /\ blen (buddy_resize a n) = n
+  /\ bmax (buddy_resize a n) = bmax a
+  /\ (forall p, pfree (buddy_resize a n) p <-> (pfree a p /\ p < n) \/ (blen a <= p /\ p < n)).
+Proof. exact resize_spec. Qed.
+
+(* shrinking never needs the capacity assertion *)
+Theorem resize_shrink_capacity : forall L a n, shape L a -> n <= L -> resize_trees_pre a n = true.
+Proof. exact resize_trees_pre_shrink. Qed.
+
+(* ---------------------------------------------------------------- saving and reloading *)
+
+(* from_bytes (to_vec a) is a with every bitmap level trimmed to the words its length needs *)
+Theorem serialize_roundtrip_exact : forall a,
+  buddy_small a -> nlen (bfree a) = bmax a + 1 -> buddy_from_bytes (buddy_to_vec a) = norm a.
+Proof. exact buddy_roundtrip. Qed.
+
+(* ... which keeps the invariant, every mark, the free space, and the serialised bytes *)
+Theorem serialize_roundtrip : forall a,
+  BInv a -> buddy_small a ->
+  let a' := buddy_from_bytes (buddy_to_vec a) in
+  BInv a' /\ blen a' = blen a /\ bmax a' = bmax a /\ (forall k i, fr a' k i = fr a k i)
+  /\ (forall p, pfree a' p <-> pfree a p) /\ buddy_to_vec a' = buddy_to_vec a.
+Proof.
+  intros a H Hs. pose proof H as ([Hn _] & _). cbv zeta. rewrite (buddy_roundtrip a Hs Hn).
+  destruct (norm_spec (blen a) a H) as (N1 & N2 & N3).
+  split; [exact N1|]. split; [reflexivity|]. split; [reflexivity|]. split; [exact N2|]. split; [exact N3|].
+  apply buddy_to_vec_norm.
+Qed.
+
+(* observational basis: in good states the marks are a function of the free space (canonical form) *)
+Theorem marks_determined_by_free_space : forall L a b,
+  BInvL L a -> BInvL L b -> bmax a = bmax b -> (forall p, pfree a p <-> pfree b p) ->
+  forall k i, fr a k i = fr b k i.
+Proof. exact marks_determined. Qed.
+
+(* ---------------------------------------------------------------- any sequence of operations *)
+
+(* good (a, live): BInv a; every live block is inside the region and none of its pages is free; live blocks
+   are pairwise disjoint; every page below len is free or inside a live block *)
+Theorem live_disjoint_init : forall n cap, good (buddy_new n cap, []).
+Proof. exact good_new. Qed.
+
+Theorem live_disjoint_step : forall s o s', good s -> step s o s' -> good s'.
+Proof. exact step_good. Qed.
+
+Theorem live_disjoint : forall n cap os s', steps (buddy_new n cap, []) os s' -> good s'.
+Proof. intros n cap os s' H. exact (steps_good _ os s' (good_new n cap) H). Qed.
+
+(* ---------------------------------------------------------------- the region tracker *)
+
+(* tinv al: every region allocator satisfies BInv, and a region that has a free block of order >= k is not
+   marked full at order k ("never reported full"); regions beyond the last one are marked full *)
+Theorem tracker_sound_allocate : forall fuel al k lowest,
+  tinv al -> k < nlen (trk al) -> tinv (snd (allocate_retry fuel al k lowest)).
+Proof. exact allocate_retry_tinv. Qed.
+
+Theorem tracker_sound_free : forall m r i k,
+  tinv (als m) -> r < nlen (regs (als m)) ->
+  k <= bmax (reg (als m) r) -> i < blen (reg (als m) r) / 2 ^ k -> blk_used (reg (als m) r) k i ->
+  tinv (als (mem_free m r i k)).
+Proof. exact mem_free_tinv. Qed.
+
+Theorem tracker_sound_record_alloc : forall m r i k,
+  tinv (als m) -> tinv (als (snd (mem_record_alloc m r i k))).
+Proof. exact mem_record_alloc_tinv. Qed.
+
+(* the retry loop gives up (and the file grows) only when no region has a free block of the order or above *)
+Theorem grow_only_when_full : forall al k,
+  tinv al -> k < nlen (trk al) -> tracker_find_free (trk al) k = None ->
+  forall r, r < nlen (regs al) -> forall j, k <= j -> ~ has_free (reg al r) j.
+Proof. exact retry_none_all_full. Qed.
